@@ -7,11 +7,13 @@
 package main
 
 import (
+	"context"
 	"encoding/json"
 	"errors"
 	"fmt"
 	"math"
 	"os"
+	"os/exec"
 	"sort"
 	"strconv"
 	"strings"
@@ -46,7 +48,8 @@ type Case struct {
 	GateAt     int64     `json:"gate_at"`     // window_gate: virtual time of the gated Reduce
 	Hold       int       `json:"hold"`        // window_gate: the callback parks after recording this many buckets
 	Adds       [][]any   `json:"adds"`        // window_gate: [time, value] added by another goroutine meanwhile
-	Post       [][]any   `json:"post"`        // window_gate: sequential operations afterwards
+	Post       [][]any   `json:"post"`        // window_gate, stress: sequential operations afterwards
+	Rounds     int       `json:"rounds"`      // stress: every goroutine runs its script this many times
 }
 
 type Out struct {
@@ -178,6 +181,14 @@ func windowStepper(c Case) stepper {
 				w.Add(num(op[2]))
 			case "reduce":
 				timex.SetFakeNow(time.Duration(num(op[1])))
+				buckets := [][]int64{}
+				w.Reduce(func(b *collection.Bucket[int64]) {
+					buckets = append(buckets, []int64{b.Sum, b.Count})
+				})
+				return buckets
+			case "cadd": // the clock stands still
+				w.Add(num(op[1]))
+			case "creduce":
 				buckets := [][]int64{}
 				w.Reduce(func(b *collection.Bucket[int64]) {
 					buckets = append(buckets, []int64{b.Sum, b.Count})
@@ -603,7 +614,6 @@ func cacheOp(cache *collection.Cache, op []any) (obs any, ok bool) {
 	}
 	return nil, false
 }
-
 
 // ---- a Take held inside its loader while other keys are used -----------------------------
 
@@ -1258,6 +1268,175 @@ func runLin(c Case, out *Out) {
 	out.Free = free
 }
 
+// ---- many goroutines, disjoint keys: every answer is determined ----------------------------
+
+// Kind "stress": after a sequential prefix, the goroutines run their scripts - each `rounds`
+// times over - as fast as they can on ONE object; every goroutine uses keys of its own (window:
+// only Adds, into commutative Sum/Count buckets), so whatever the interleaving every result is
+// the one of the sequential run "script 1, script 2, ...".  What breaks it is missing mutual
+// exclusion inside the object (lost updates, a corrupted map).  Observations: goroutine by
+// goroutine, then those of the sequential post operations.  The case runs in a process of its
+// own: Go kills the process on a detected concurrent map access, and that must be the case's
+// own failure, not the end of the run.  In the executor built with the race detector (and run
+// with GORACE=halt_on_error=1) a detected data race ends the child the same way; there the
+// free-running kind "lin" is isolated as well.
+func runStress(c Case, out *Out) {
+	st, err := makeStepper(c.Obj, c)
+	if err != nil {
+		out.Err = err.Error()
+		return
+	}
+	for _, op := range c.Pre {
+		st(op)
+	}
+	var ready atomic.Int32
+	var wg sync.WaitGroup
+	start := make(chan struct{})
+	obs := make([][]any, len(c.Threads))
+	errs := make([]string, len(c.Threads))
+	rounds := c.Rounds
+	if rounds < 1 {
+		rounds = 1
+	}
+	for i, script := range c.Threads {
+		wg.Add(1)
+		go func(i int, script [][]any) {
+			defer wg.Done()
+			defer func() {
+				if r := recover(); r != nil {
+					errs[i] = fmt.Sprintf("panic: %v", r)
+				}
+			}()
+			<-start
+			ready.Add(1)
+			for spin := 0; int(ready.Load()) < len(c.Threads) && spin < 1<<22; spin++ {
+			}
+			for r := 0; r < rounds; r++ {
+				for _, op := range script {
+					if o := st(op); o != nil {
+						obs[i] = append(obs[i], o)
+					}
+				}
+			}
+		}(i, script)
+	}
+	close(start)
+	done := make(chan struct{})
+	go func() { wg.Wait(); close(done) }()
+	select {
+	case <-done:
+	case <-time.After(30 * time.Second):
+		out.Err = "goroutines did not finish (deadlock?)"
+		return
+	}
+	for _, e := range errs {
+		if e != "" {
+			out.Err = e
+			return
+		}
+	}
+	for _, o := range obs {
+		out.Obs = append(out.Obs, o...)
+	}
+	for _, op := range c.Post {
+		if o := st(op); o != nil {
+			out.Obs = append(out.Obs, o)
+		}
+	}
+}
+
+// runIsolated runs cases in a child process (this same binary), which reports every case as soon
+// as it is done.  If the child dies - Go ends the process on a detected concurrent map access,
+// and, in the -race build run with GORACE=halt_on_error=1, on a detected data race - the case it
+// was running gets the death as its error and a new child runs the rest.
+func runIsolated(cases []Case) []Out {
+	res := make([]Out, 0, len(cases))
+	rest := cases
+	for round := 0; len(rest) > 0; round++ {
+		base := fmt.Sprintf("%s.child%d", os.Getenv("VERIF_OUT"), round)
+		in, outp := base+".in.json", base+".out.jsonl"
+		fail := func(c Case, format string, a ...any) Out {
+			return Out{ID: c.ID, Obs: []any{}, Err: fmt.Sprintf(format, a...)}
+		}
+		data, err := json.Marshal(rest)
+		if err == nil {
+			err = os.WriteFile(in, data, 0o644)
+		}
+		if err != nil {
+			for _, c := range rest {
+				res = append(res, fail(c, "isolation: %v", err))
+			}
+			return res
+		}
+		ctx, cancel := context.WithTimeout(context.Background(), time.Duration(60+3*len(rest))*time.Second)
+		cmd := exec.CommandContext(ctx, os.Args[0])
+		cmd.Env = append(os.Environ(), "VERIF_IN="+in, "VERIF_OUT="+outp, "C16_CHILD=1")
+		var stderr strings.Builder
+		cmd.Stderr = &stderr
+		runErr := cmd.Run()
+		timedOut := ctx.Err() != nil
+		cancel()
+		got := 0
+		if f, err := os.Open(outp); err == nil {
+			dec := json.NewDecoder(f)
+			dec.UseNumber()
+			for got < len(rest) {
+				var o Out
+				if dec.Decode(&o) != nil {
+					break
+				}
+				if o.Obs == nil {
+					o.Obs = []any{}
+				}
+				res = append(res, o)
+				got++
+			}
+			f.Close()
+		}
+		os.Remove(in)
+		os.Remove(outp)
+		if got == len(rest) {
+			break
+		}
+		_ = runErr
+		why := "the process died"
+		lines := strings.Split(stderr.String(), "\n")
+		for i, l := range lines {
+			if strings.HasPrefix(l, "fatal error:") || strings.HasPrefix(l, "panic:") {
+				why = "the process died: " + l
+				break
+			}
+			if strings.Contains(l, "WARNING: DATA RACE") {
+				// name the two accesses: the first go-zero frames of the report
+				var where []string
+				for _, m := range lines[i+1:] {
+					m = strings.TrimSpace(m)
+					if strings.HasPrefix(m, "github.com/zeromicro/go-zero/") && len(where) < 2 {
+						where = append(where, strings.TrimSuffix(strings.TrimPrefix(m, "github.com/zeromicro/go-zero/core/"), "()"))
+					}
+					if strings.HasPrefix(m, "Goroutine ") {
+						break
+					}
+				}
+				why = "data race: " + strings.Join(where, " / ")
+				break
+			}
+		}
+		if timedOut {
+			why = "the process did not finish"
+		}
+		res = append(res, fail(rest[got], "%s", why))
+		rest = rest[got+1:]
+		if round >= 8 { // do not loop on a tree where everything dies
+			for _, c := range rest {
+				res = append(res, fail(c, "not run: nine earlier cases ended their process"))
+			}
+			break
+		}
+	}
+	return res
+}
+
 func runCase(c Case) (out Out) {
 	out = Out{ID: c.ID, Obs: []any{}}
 	defer func() {
@@ -1282,6 +1461,8 @@ func runCase(c Case) (out Out) {
 		runLin(c, &out)
 	case "window_gate":
 		runWindowGate(c, &out)
+	case "stress":
+		runStress(c, &out)
 	default:
 		out.Err = "unknown kind " + c.Kind
 	}
@@ -1316,6 +1497,19 @@ func runCaseGuarded(c Case) Out {
 func main() {
 	logx.Disable()
 	cases := readCases()
+	if os.Getenv("C16_CHILD") != "" {
+		// a child: one case after the other, each reported (unbuffered) as soon as it is done
+		f, err := os.Create(os.Getenv("VERIF_OUT"))
+		if err != nil {
+			hx.Fatal("create VERIF_OUT: %v", err)
+		}
+		enc := json.NewEncoder(f)
+		for _, c := range cases {
+			enc.Encode(runCaseGuarded(c))
+		}
+		f.Close()
+		return
+	}
 	w := hx.NewWriter()
 	defer w.Close()
 	res := make([]Out, len(cases))
@@ -1351,9 +1545,25 @@ func main() {
 			res[i] = runCaseGuarded(c)
 		}
 	}
+	// kinds whose failure can end the process run in a child
+	isolated := func(c Case) bool {
+		return (c.Kind == "stress" || (raceBuild && c.Kind == "lin")) && os.Getenv("C16_NOISOLATE") == ""
+	}
+	var iso []Case
+	var isoAt []int
 	for i, c := range cases {
 		if c.Kind != "cache_rt" && !polls(c.Kind) {
-			res[i] = runCaseGuarded(c)
+			if isolated(c) {
+				iso = append(iso, c)
+				isoAt = append(isoAt, i)
+			} else {
+				res[i] = runCaseGuarded(c)
+			}
+		}
+	}
+	if len(iso) > 0 {
+		for j, o := range runIsolated(iso) {
+			res[isoAt[j]] = o
 		}
 	}
 	wg.Wait()
